@@ -2449,14 +2449,45 @@ package sftp
 //@ func wrapPathError
 //@   property C07, C10, C05
 
+// Path confinement (C10, C05). "Absolute" is decided on the first byte; "lexically clean" is an uninterpreted property of
+// strings (sprop) that only the results of package path's and filepath's Clean / Join are known to have. The contracts of the path library below are trusted;
+// filepath.ToSlash is the identity because the tree is verified for a GOOS whose separator is '/'.
+//@ pred absPath(s string) = len(s) > 0 && s[0] == '/'
+//@ pred okPath(s string) = absPath(s) && sprop(clean, s)
+
+//@ func path.IsAbs
+//@   trusted
+//@   ensures result == absPath(path)
+//@   modifies nothing
+
+//@ func path.Join
+//@   trusted
+//@   ensures sprop(clean, result)
+//@   ensures len(elem) > 0 && absPath(elem[0]) ==> absPath(result)
+//@   modifies nothing
+
+//@ func path/filepath.Clean
+//@   trusted
+//@   ensures sprop(clean, result)
+//@   modifies nothing
+
+//@ func path/filepath.ToSlash
+//@   trusted
+//@   ensures result == path
+//@   modifies nothing
+
 //@ func cleanPathWithBase
 //@   property C07, C10, C05
 //@   function
+//@   ensures sprop(clean, result)
+//@   ensures absPath(base) ==> absPath(result)
+// (C10: whatever the client sent, the path handed on is lexically clean, and absolute when the base is)
 
 //@ func cleanPath
 //@   property C07, C10, C05
 //@   function
 //@   ensures result == cleanPathWithBase("/", p)
+//@   ensures okPath(result)
 
 //@ func WithStartDirectory$1
 //@   property C10
@@ -3210,3 +3241,49 @@ package sftp
 //@   requires s != nil
 //@   ensures result.orderid == old(s.packetCount) + 1 && s.packetCount == old(s.packetCount) + 1 && result.requestPacket == p
 //@   modifies s.packetCount
+
+// C10, path confinement end to end: the start directory is absolute and clean from construction on (NewRequestServer;
+// WithStartDirectory stores cleanPath of its argument), every Request built for a path-based command carries paths
+// that are absolute and clean (only a symlink's target text is passed through verbatim), and that is what reaches
+// Request.call / open / opendir, the only doors to the handlers.
+//@ func NewRequestServer
+//@   property C10
+//@   requires rwc != nil
+//@   loop 1 invariant rs != nil && (len(options) == 0 ==> rs.startDirectory == "/" && rs.maxTxPacket == 32768)
+//@   loop 1 assume options[rangeindex + 1] != nil || rangeindex + 1 >= len(options)
+//@   loop 1 assume rs != nil && okPath(rs.startDirectory)
+// (assumed of options: each is a non-nil function that leaves the start directory absolute and clean -- the field is
+// unexported, and the one option of this package that sets it, WithStartDirectory, is proved to store cleanPath(dir))
+//@   ensures result != nil && okPath(result.startDirectory)
+//@   ensures len(options) == 0 ==> result.startDirectory == "/" && result.maxTxPacket == 32768
+
+//@ extend func WithStartDirectory$1
+//@   ensures okPath(rs.startDirectory)
+
+//@ func NewRequest
+//@   property C10
+//@   ensures result != nil && result.Method == method && okPath(result.Filepath)
+
+//@ extend func requestFromPacket
+//@   ensures absPath(baseDir) && !typeis(pkt, *sshFxpSymlinkPacket) ==> okPath(result.Filepath)
+//@   ensures typeis(pkt, *sshFxpSymlinkPacket) ==> result.Filepath == pkt.(*sshFxpSymlinkPacket).Targetpath
+//@   ensures absPath(baseDir) && (typeis(pkt, *sshFxpRenamePacket) || typeis(pkt, *sshFxpSymlinkPacket) || typeis(pkt, *sshFxpExtendedPacketHardlink)) ==> okPath(result.Target)
+
+//@ extend func (*RequestServer).packetWorker
+//@   requires okPath(rs.startDirectory)
+//@   loop 1 invariant okPath(rs.startDirectory)
+//@   assert before call (*Request).call#1: okPath(arg0.Filepath)
+//@   assert before call (*Request).call#2: okPath(arg0.Filepath)
+//@   assert before call (*Request).call#3: okPath(arg0.Filepath) && okPath(arg0.Target)
+//@   assert before call (*Request).call#4: okPath(arg0.Filepath)
+//@   assert before call (*Request).call#6: !typeis(arg2, *sshFxpSymlinkPacket) ==> okPath(arg0.Filepath)
+//@   assert before call (*Request).call#6: typeis(arg2, *sshFxpRenamePacket) || typeis(arg2, *sshFxpSymlinkPacket) || typeis(arg2, *sshFxpExtendedPacketHardlink) ==> okPath(arg0.Target)
+//@   assert before call (*Request).open#1: okPath(arg0.Filepath)
+//@   assert before call (*Request).opendir#1: okPath(arg0.Filepath)
+//@   assert before call cleanPacketPath#1: typeis(rs.Handlers.FileList, RealPathFileLister) || typeis(rs.Handlers.FileList, legacyRealPathFileLister) || okPath(arg1)
+
+//@ extend func (*RequestServer).Serve$2$1
+//@   requires okPath(rs.startDirectory)
+
+//@ extend func (*RequestServer).Serve
+//@   requires okPath(rs.startDirectory)
